@@ -893,10 +893,19 @@ def weave(txt, s, notes, canary=False):
             k = int(arg.split()[0])
             cl = _closures(mask, body_open, body_close)
             if k < 1 or k > len(cl):
-                # the closure this contract was written for is gone (code shape changed): go on without it
-                notes.add('LOST-ANCHOR', '@closure %d: function %s has %d closures' % (k, s.args[1], len(cl)))
-                continue
-            b1, b2, bs = cl[k - 1]
+                # no closure at this position any more.  If the contract says which parameters its closure has and some other
+                # closure of the function has exactly these, the closure only moved (handled below).  Otherwise the closure is
+                # GONE: whatever replaced it is first-order code that the verifier sees directly, so its contract is moot and
+                # the function's obligations are judged as usual (seed C17b deletes the closure together with the snapshot read)
+                ident = arg.split(None, 1)[1].strip() if len(arg.split(None, 1)) > 1 else ''
+                if not ident or not cl:
+                    notes.add('CLOSURE-GONE', '@closure %d: function %s has %d closures' % (k, s.args[1], len(cl)))
+                    continue
+                b1, b2, bs = cl[-1]      # placeholder; the identity search below decides
+                k_missing = True
+            else:
+                k_missing = False
+                b1, b2, bs = cl[k - 1]
             # optional parameter types:  @closure K name: Type ; name2: Type2   (made explicit mechanically)
             #                            @closure K ()                          (the closure takes no parameter)
             ptypes = arg.split(None, 1)[1] if len(arg.split(None, 1)) > 1 else ''
@@ -917,14 +926,20 @@ def weave(txt, s, notes, canary=False):
                     if noparams:
                         return ptxt == ''
                     return all(re.search(r'\b%s\b' % re.escape(w), ptxt) for w in want) and len(ptxt.split(',')) == len(want)
-                if not fits(cl[k - 1]):
+                if k_missing or not fits(cl[k - 1]):
                     cands = [c for c in cl if fits(c)]
                     if len(cands) == 1:
                         notes.add('ANCHOR-RELAXED', '@closure %d of %s matched by its parameter list (position changed)' % (k, s.args[1]))
                         b1, b2, bs = cands[0]
+                    elif k_missing and not cands:
+                        notes.add('CLOSURE-GONE', '@closure %d: function %s has %d closures, none with these parameters' % (k, s.args[1], len(cl)))
+                        continue
                     else:
                         notes.add('LOST-ANCHOR', '@closure %d: the closure at this position of %s has other parameters and %d closures fit' % (k, s.args[1], len(cands)))
                         continue
+            elif k_missing:
+                notes.add('CLOSURE-GONE', '@closure %d: function %s has %d closures' % (k, s.args[1], len(cl)))
+                continue
             for pt in [x.strip() for x in ptypes.split(';') if x.strip()]:
                 if ':' not in pt:
                     continue        # a bare name only identifies the closure
